@@ -8,10 +8,10 @@ ENUMX = "bounded-exhaustive enumeration of an explicit finite input family again
 # id -> (engine, technique, text, note, design section)
 CLAIMED = {
  "C04": ("smx", SMX,
-         "Every script of the flow alphabet (outcome class x response app list x per-app status x policy x plan x per-app installer result x reboot answers, one-shot and continuous mode) is executed on the real state machine and judged by a reference written from the statement, including the only-if directions.",
-         "Bounded to <=3 apps, response lists without repeated ids, one loop iteration; harness traits, futures-channel and serde_json are trusted.", "3/C04"),
+         "Every script of the flow alphabet (outcome class incl. HTTP error with X-Retry-After and a stored poll interval, response app list, per-app status, policy, plan, per-app installer result, reboot answers; one-shot and continuous mode), a dedicated product over three apps each offered or not in every order, two consecutive checks within a deviation bound, and a CUP part with forgeries are executed on the real state machine and judged by a reference written from the statement, including the only-if directions.",
+         "Bounded to <=3 apps, response lists without repeated ids, at most two consecutive checks; harness traits, futures-channel and serde_json are trusted.", "3/C04"),
  "C06": ("smx", SMX,
-         "Every word of per-attempt outcomes (15-letter alphabet incl. transport/timeout/caller error, status classes with and without X-Retry-After, forged, unparseable) the flow consumes, x stored poll interval x CUP x every jitter draw of a boundary menu x delivery outcome of every event report, plus pings in the reboot wait, is executed; the reference decides which attempts may exist, the exact back-off duration from the injected draw, id freshness and metric accounting.",
+         "Every word of per-attempt outcomes (17-letter alphabet incl. transport/timeout/caller error, status classes with and without X-Retry-After, unauthenticated answers with success and error statuses, unparseable) the flow consumes, x stored poll interval x CUP x every jitter draw of a boundary menu x delivery outcome of every event report, plus pings in the reboot wait, is executed; the reference decides which attempts may exist, the exact back-off duration from the injected draw, id freshness and metric accounting.",
          "Jitter draw owned through the verif_hooks seam: the draw must come from rand::random::<u64>() in state_machine.rs; words longer than 3 would themselves be violations; one app.", "3/C06"),
  "C10": ("smx", SMX,
          "Every reporting path (unparseable, plan error, deferred, denied, install with every per-app result vector) for every app-set order, response list (incl. unknown id, manifest version present/absent) and every delivery outcome of each individual report is executed and compared with a reference report list; each faulty execution is also compared with the all-delivered run of the same script (outcome independence).",
@@ -35,7 +35,7 @@ CLAIMED = {
          "Every X-Retry-After string over a 10-symbol alphabet (digits, signs, blanks, letter, dot, 0xff) up to length 4/5, a numeric boundary family with leading zeros, duplicates and name-case variants, for statuses 200/500 and with/without a stored interval, is sent through one real check and the value announced, committed and presented by a rebuilt state machine is compared with an independent reading (plain decimal u64, capped at 86400 s); every assignment of {7 s, 99999 s, no header, no response, forged+header} to the exchanges update check / 3 event reports / 2 pings is executed with announcement-and-commit-before-continuing and a rebuilt machine checked after every exchange.",
          "Leading '+' and conflicting duplicate headers treated as unspecified; header strings beyond the alphabet/length bound not reached.", "3/C07"),
  "C08": ("smx", SMX,
-         "Every history up to length 3/4 over 10 check outcome classes, 4 ping outcomes and end-of-wait inside the reboot wait, and restart (CUP on/off, plus a construction-failure configuration) runs on the real state machine with a clock that is never microsecond aligned; the reference (failures since last success; last contact only on answered checks / successful pings) is compared with the announcements and the next policy call, and after EVERY storage commit a fresh state machine is built on the surviving snapshot: it must present the values before or after the current step, never a mixture, and the values after once the step has finished.",
+         "One-shot checks of every class (durability when the stream ends) and every history up to length 3/4 over 13 check outcome classes (incl. three whose event-report answers dictate a poll interval, i.e. commits in the middle of a check), 4 ping outcomes and end-of-wait inside the reboot wait, and restart (CUP on/off, plus a construction-failure configuration) runs on the real state machine with a clock that is never microsecond aligned; the reference (failures since last success; last contact only on answered checks / successful pings) is compared with the announcements and the next policy call, and after EVERY storage commit a fresh state machine is built on the surviving snapshot: it must present the values before or after the current step, never a mixture, and the values after once the step has finished.",
          "Crash = loss of exactly the uncommitted writes (atomic commit contract); histories longer than the bound not reached; 'failed check' = Err result.", "3/C08"),
  "C09": ("smx", SMX,
          "Histories of checks (incl. install + reboot wait), failed checks (transport, unparseable, forged body carrying cohorts), pings, end of wait and restarts with every subset of embedder presets run on the real state machine for app sets of 1-3 apps; responses name sub-lists/orders of the set incl. an unknown id with each cohort field present/empty/absent and daystart present/absent/without days; after every step the reference app table is compared with the next policy call, with the cohort fields and ping dates of every request sent, and with what a machine rebuilt (without presets) on the committed storage restores.",
@@ -50,16 +50,16 @@ CLAIMED = {
          "Every service URL of a grammar (2 schemes x 7 authorities incl. IPv6 literals, zone id and userinfo x 5 paths x 5 queries) x 3 key sets x 2 id assignments x 3 request contents is built twice through the real RequestBuilder + StandardCupv2Handler and the wire URI, retained body, key id and nonce compared with an independent string-level expectation; all nonces of the whole enumeration must be pairwise distinct; in continuous-mode histories (failed attempts, install with three reports, ping, reboot, restart, further check) every wire request and the metadata/bytes handed to the installer are checked.",
          "Nonce unpredictability is not observable (distinctness only); http::Uri decides which URLs are well-formed.", "3/C03"),
  "C14": ("smx", SMX,
-         "On five base scripts run on the real state machine with overflow checks on: every single failing storage write, every pair, all-of-a-kind, all-on-a-key and everything (differential: events and wire requests equal the healthy run); every protocol key and the app JSON preset to each of 13 extreme / mistyped values (singles, and all pairs in thorough); a wall-clock jump from a 7-entry menu before any clock read (<=1/2 per run); every truncation and single-bit flip of 4 response documents, every status 100-599 x 6 header sets x CUP, and 62 service URL strings through the one-shot flow; each check must end with a delivered result and nothing may unwind.",
-         "Installer/policy answers are contract-conforming; log formatting is not exercised (no tracing subscriber); inputs outside the listed families are not reached.", "3/C14"),
+         "On five base scripts run on the real state machine with overflow checks on (two parts additionally with a tracing subscriber that formats every log event): every single failing storage write, every pair, all-of-a-kind, all-on-a-key and everything (differential: events and wire requests equal the healthy run); every protocol key and the app JSON preset to each of 13 extreme / mistyped values (singles, and all pairs in thorough); a wall-clock jump from a 7-entry menu before any clock read (<=1/2 per run); every truncation and single-bit flip of 4 response documents, every status 100-599 x 6 header sets x CUP, and 62 service URL strings through the one-shot flow; each check must end with a delivered result and nothing may unwind.",
+         "Installer/policy answers are contract-conforming; log formatting is exercised in the two with-logging parts only; inputs outside the listed families are not reached.", "3/C14"),
  "C11": ("smx", SMX,
-         "The real state machine runs with every environment operation blocking (timers, HTTP, plan, install, progress, reboot) and the select! branch order owned by the explorer; clients issue 1-2 requests whose injection step is enumerated exhaustively over the horizon, combined with bounded non-default scheduling / select-order choices and all environment scripts (throttled, no update, install + reboot wait); after a default-schedule drain every request must have exactly one reply, and each reply is matched against the policy call log (Started/Throttled need a distinct decision with the request's options and that answer between send and reply; AlreadyRunning needs an overlapping busy interval; on-demand upgrades of the reboot question need an on-demand request); dropping all handles / the stream at every step is explored separately.",
+         "The real state machine runs with every environment operation blocking (timers, HTTP, plan, install, progress, reboot) and the select! branch order owned by the explorer; clients issue 1-2 requests whose injection step is enumerated exhaustively over the horizon, combined with bounded non-default scheduling / select-order choices and all environment scripts (throttled, no update, install + reboot wait); after a default-schedule drain every request must have exactly one reply, and each reply is matched against the policy call log (Started/Throttled need a distinct decision with the request's options and that answer between send and reply; AlreadyRunning needs an overlapping busy interval; on-demand upgrades of the reboot question need an on-demand request, and once an on-demand request was accepted for a check every later reboot question of it must be on-demand); dropping all handles / the stream at every step is explored separately.",
          "Same-thread use of ControlHandle; horizon 40/50 steps; deviation bound 1-3 on scheduling choices other than the injection step.", "3/C11"),
  "C12": ("smx", SMX,
-         "Timers are pending operations fired by the explorer in every order and subset (bounded non-default scheduling choices) for all timing shapes (wall / monotonic / both) x minimum wait (none, 7 s, 0 s) x policy answers (allowed / too soon) x optional control request over 2-3 loop iterations, and in the reboot wait with the reboot refused once or twice; log invariants: one timing question per wait, announced unchanged, exactly the timers it prescribes, an unrequested decision or ping only after all of them fired (and it does begin once they have), the reboot question re-asked only after its 30-minute timer or an on-demand request.",
+         "Timers are pending operations fired by the explorer in every order and subset (bounded non-default scheduling choices) for all timing shapes (wall / monotonic / both) x minimum wait (none, 7 s, 0 s) x policy answers (allowed / too soon) x optional control request over 2-3 loop iterations, and in the reboot wait with the reboot refused once or twice and control requests (scheduled; on-demand then scheduled) arriving at any point; log invariants: one timing question per wait, announced unchanged, exactly the timers it prescribes, an unrequested decision or ping only after all of them fired (and it does begin once they have), the reboot question re-asked only when justified by a firing of its 30-minute timer or by one not yet answered on-demand request.",
          "Timer completion = flag + waker call by the harness; deviation bound 2/3.", "3/C12"),
  "C05": ("smx", SMX,
-         "Histories of 2-3 loop iterations, each triggered by timers / a scheduled request / an on-demand request (exhaustive), with bounded non-default environment answers among 19 check decisions (both positive kinds x all parameter combinations, three negatives), server answers incl. retries, 3 install decisions, plan errors, install results, reboot-needed and four reboot-allowed sequences (incl. an on-demand request and a scheduled request during the wait) run on the real state machine; invariants over the single call log: every wire request inside an allowed check and carrying exactly the returned parameters (event reports included), installer only after approval of that very plan, reboot only after a clean install + needed + most recent 'yes', on-demand reboot question only with an on-demand source; every invalid app set must end the stream with zero environment calls.",
+         "Histories of 2-3 loop iterations, each triggered by timers / a scheduled request / an on-demand request (exhaustive), with bounded non-default environment answers among 19 check decisions (both positive kinds x all parameter combinations, three negatives), server answers incl. retries and updates for one or both of two apps, 3 install decisions, plan errors, independent per-app install results, reboot-needed and five reboot-allowed sequences (incl. accepted and refused on-demand requests and a scheduled request during the wait) run on the real state machine; invariants over the single call log: every wire request inside an allowed check and carrying exactly the returned parameters (event reports included), installer only after approval of that very plan, reboot only after a clean install + needed + most recent 'yes', on-demand reboot question only with an on-demand source; every invalid app set must end the stream with zero environment calls.",
          "Deviation bound 3/4 on environment answers; one-shot path bypasses the check decision by design.", "3/C05"),
  "C13": ("smx", SMX,
          "(generator) every program over 8 operations up to length 4-6 runs on the real async_generator for 5 adaptors under a controlled executor: poll-when-woken plus bounded deviations (spurious polls, other completion orders, early drop) and extra polls after the end; the received sequence must equal the reference (each item once, in order, one completion, then end, is_terminated consistent), the next program step may start only after the consumer took the yielded items, every completion must wake the task, no deadlock; (state machine) update + install with 0-3 progress values, all operations blocking, delayed and spurious consumer polls: progress in order before the outcome, request / installer / reboot only after the consumer took the corresponding state event, acknowledgement only after receipt, no lost wake-up, no deadlock.",
